@@ -422,6 +422,8 @@ func (r *rig) wireSx(raw []byte) Sx {
 	}
 	var hdr []kv
 	body := List{}
+	var v52, v122 []byte
+	has122 := false
 	for _, p := range parts {
 		if len(p) == 0 {
 			continue
@@ -442,7 +444,9 @@ func (r *rig) wireSx(raw []byte) Sx {
 			if string(v) != beginStrings[r.c.begin] {
 				idok = false
 			}
-		case 9, 10, 52:
+		case 9, 10:
+		case 52:
+			v52 = v
 		case 35:
 			typ = string(v)
 		case 34:
@@ -456,13 +460,33 @@ func (r *rig) wireSx(raw []byte) Sx {
 				idok = false
 			}
 		case 122:
-			hdr = append(hdr, kv{122, []byte("T")})
+			v122, has122 = v, true
 		default:
 			if quickfix.Tag(t).IsHeader() {
 				hdr = append(hdr, kv{t, v})
 			} else {
 				body = append(body, L(Int(t), Bytes(v)))
 			}
+		}
+	}
+	if has122 {
+		// OrigSendingTime is projected to "T" when it is the original SendingTime: the message's own for a gap fill,
+		// the stored original's for a replay (when the store still has it); anything else is shown as it is
+		want := v52
+		if typ != "4" {
+			want = nil
+			if ms, err := r.base.GetMessages(seq, seq); err == nil && len(ms) == 1 {
+				for _, f := range bytes.Split(ms[0], []byte{1}) {
+					if bytes.HasPrefix(f, []byte("52=")) {
+						want = f[3:]
+					}
+				}
+			}
+		}
+		if want == nil || bytes.Equal(want, v122) {
+			hdr = append(hdr, kv{122, []byte("T")})
+		} else {
+			hdr = append(hdr, kv{122, append([]byte("differs-from-original-SendingTime:"), v122...)})
 		}
 	}
 	sort.SliceStable(hdr, func(i, j int) bool { return hdr[i].t < hdr[j].t })
